@@ -112,6 +112,9 @@ func (p *Parser) Parse(formatOnly bool) (*bytes.Buffer, int) {
 
 	for fileScanner.Scan() {
 		line := fileScanner.Text()
+		// the scanner drops one carriage return; drop all of them here, or every later
+		// pass over the text (assembler, formatter) strips one more and the result changes
+		line = strings.TrimRight(line, "\r")
 		// remove indentation
 		line = strings.TrimLeft(line, " \t")
 		text = "" // empty text each iteration
